@@ -20,6 +20,7 @@ import (
 	"strconv"
 	"strings"
 	"sync"
+	"sync/atomic"
 	"testing"
 	"testing/synctest"
 	"time"
@@ -128,6 +129,7 @@ type Sim struct {
 	starveMod   uint64 // strategy "starve": sites whose hash is starveSel modulo starveMod delay their goroutine
 	starveSel   uint64
 	shortStall  bool
+	jitter      atomic.Int64
 	starveOrder int
 	starveFocus []string
 	starveSub   string // development aid: SIM_STARVE_SITE=<substring> starves exactly the matching sites
@@ -486,6 +488,20 @@ func OnStep(f func()) {
 		s.nOnStep++
 	}
 	s.ulk()
+}
+
+// Jitter is inserted by goinst (option timer_jitter) around the duration of every timer and
+// ticker the instrumented code creates: it adds a run-unique amount below one millisecond, so
+// that no two timers share a deadline. The Go runtime fires timers with equal deadlines in an
+// order that depends on the internal state of its timer heaps, which nothing in the simulation
+// controls; a goroutine blocked in a select on two such timers would take either case.
+func Jitter(d time.Duration) time.Duration {
+	s := current()
+	if s == nil || d <= 0 {
+		return d
+	}
+	n := s.jitter.Add(1)
+	return d + time.Duration((n*7919)%999983)
 }
 
 // MainDone tells the scheduler that the harness main goroutine has finished.
